@@ -604,6 +604,8 @@ fn field_alphabet(m: &BigUint, seed: u64, tag: &str) -> (Vec<BigUint>, Vec<BigUi
     for d in 1..=4u32 {
         extreme.push(m - d);
     }
+    let rinv = r256.modpow(&(m - 2u32), m);
+    extreme.extend([rinv.clone(), (&rinv * 2u32) % m, m - &rinv]);
     extreme.extend([&r256 - m, &r256 - m - 1u32, &r256 - m + 1u32, m >> 1, (m >> 1) + 1u32, &r256 % m, (&r256 * &r256) % m, (BigUint::one() << 255usize) % m, (BigUint::one() << 128usize) - 1u32]);
     let mut g = SplitMix::new(seed, tag);
     for _ in 0..4 {
@@ -627,7 +629,7 @@ pub fn run(ctx: &Arc<Ctx>) {
     let _ = frob_images();
     let pr = sm9::params();
     let (pp, n) = (pr.p.clone(), pr.n.clone());
-    ctx.set_rule("Fp and mod N: limb-pattern + boundary alphabets, unary ops on all, binary ops on all x extreme (thorough all x all). Fp2: all 24x24 boundary elements, unary on all, binary on all pairs. Fp4: all 6^4 elements over {0,1,p-1,2,seeded x2}, unary on all, binary on all x 64 (thorough all pairs). Fp12: one element per subset of zero components (4096) + basis + +-1: unary ops (sqr, inv, neg, double, triple, div2, Frobenius 1/2/3/6, to_bytes) on all, pow with boundary exponents, mul/add/sub against 64 partners, sparse line multiplication with every zero pattern of its 3 coefficients. Booth recoding for w in {5,7}: every k < 2^16, every d*2^(wi) and 2^(w(i+1)) - d*2^(wi). G1/G2: [j]P x 4 Jacobian representations + infinity (j incl. lambda, lambda^2 with lambda^2+lambda+1 = 0 mod N: different points with the same y), all ordered pairs through add / sub / add_full / equality, unary ops, scalar multiplication over every Booth (window, digit) combination and boundary scalars, all 37x64 fixed-base table entries. Oracle: polynomial-basis Fp12 = Fp[w]/(w^12+2) and affine big-integer group law.");
+    ctx.set_rule("Fp and mod N: limb-pattern + boundary alphabets, unary ops on all, binary ops on all x extreme (thorough all x all). Fp2: all 24x24 boundary elements, unary on all, binary on all pairs. Fp4: all 6^4 elements over {0,1,p-1,2,seeded x2}, unary on all, binary on all x 64 (thorough all pairs). Fp12: one element per subset of zero components (4096) + basis + +-1: unary ops (sqr, inv, neg, double, triple, div2, Frobenius 1/2/3/6, to_bytes) on all, pow with boundary exponents, mul/add/sub against 64 partners, sparse line multiplication with every zero pattern of its 3 coefficients. Booth recoding for w in {5,7}: every k < 2^16, every d*2^(wi) and 2^(w(i+1)) - d*2^(wi). G1/G2: [j]P x 4 Jacobian representations + infinity (j incl. lambda, lambda^2 with lambda^2+lambda+1 = 0 mod N: different points with the same y), all ordered pairs through add / sub / add_full / equality, unary ops, scalar multiplication over every Booth (window, digit) combination, boundary scalars and every scalar within 300 (thorough 1200) of 0 and of N, all 37x64 fixed-base table entries. Oracle: polynomial-basis Fp12 = Fp[w]/(w^12+2) and affine big-integer group law.");
     let mut cases: Vec<Case> = Vec::new();
     let hx = |x: &BigUint| hexbig(x);
     let mut g = SplitMix::new(ctx.seed, "c13");
@@ -670,6 +672,8 @@ pub fn run(ctx: &Arc<Ctx>) {
     // ---- Fp2
     let f24: Vec<BigUint> = {
         let mut v = vec![BigUint::zero(), BigUint::one(), BigUint::from(2u32), BigUint::from(3u32), &pp - 1u32, &pp - 2u32, &pp - 3u32, &pp >> 1, (&pp >> 1) + 1u32, (BigUint::one() << 255usize) % &pp, (BigUint::one() << 256usize) % &pp, (BigUint::one() << 64usize) - 1u32, BigUint::one() << 64usize, BigUint::one() << 128usize, BigUint::one() << 192usize, ((BigUint::one() << 64usize) - 1u32) << 128usize, BigUint::from(5u32)];
+        // R^-1 mod p: its Montgomery form is the plain integer 1
+        v.push((BigUint::one() << 256usize).modpow(&(&pp - 2u32), &pp));
         while v.len() < 24 {
             v.push(g.below(&pp));
         }
@@ -826,7 +830,8 @@ pub fn run(ctx: &Arc<Ctx>) {
     js.push(lambda.clone());
     js.push(lambda2.clone());
     js.push((BigUint::from(3u32) * &lambda) % &n);
-    let lambdas: Vec<BigUint> = vec![BigUint::one(), BigUint::from(2u32), &pp - 1u32, g.nonzero_below(&pp)];
+    let rinv_p = (BigUint::one() << 256usize).modpow(&(&pp - 2u32), &pp);
+    let lambdas: Vec<BigUint> = vec![BigUint::one(), BigUint::from(2u32), &pp - 1u32, g.nonzero_below(&pp), rinv_p.clone()];
     let mut reps: Vec<(BigUint, BigUint)> = Vec::new();
     for j in &js {
         for l in &lambdas {
@@ -892,7 +897,7 @@ pub fn run(ctx: &Arc<Ctx>) {
         }
     }
     // ---- G2
-    let l2s: Vec<E2> = vec![f2().one(), (BigUint::from(2u32), BigUint::zero()), (BigUint::zero(), BigUint::one()), (g.nonzero_below(&pp), g.nonzero_below(&pp))];
+    let l2s: Vec<E2> = vec![f2().one(), (BigUint::from(2u32), BigUint::zero()), (BigUint::zero(), BigUint::one()), (g.nonzero_below(&pp), g.nonzero_below(&pp)), (rinv_p.clone(), BigUint::zero())];
     let mut reps2: Vec<(BigUint, E2)> = Vec::new();
     for j in &js {
         for l in &l2s {
@@ -911,6 +916,21 @@ pub fn run(ctx: &Arc<Ctx>) {
     let mut sc2 = sc1.clone();
     for i in (0..256usize).step_by(ctx.tier.pick(5, 1)) {
         sc2.push(("2^i".into(), BigUint::one() << i));
+    }
+    // every scalar within 300 of 0 and of N (a single (window, digit) coincidence with the accumulator - e.g. the last
+    // signed digit meeting a table entry it already holds - sits at one such value), fixed- and variable-base, G1 and G2
+    let sweep = ctx.tier.pick(300u32, 1200);
+    for j in 0..=sweep {
+        for (tag, k) in [("near-0", BigUint::from(j)), ("near-N", &n - j), ("N+j", &n + j)] {
+            cases.push(Case::G1GMul { scalar: hx(&k), tag: tag.into() });
+            if j % 3 == 0 {
+                cases.push(Case::G1Mul { base: hx(&js[6]), l: hx(&lambdas[3]), scalar: hx(&k), tag: tag.into() });
+                cases.push(Case::G2Mul { base: hx(&BigUint::one()), l: s2(&f2().one()), scalar: hx(&k), gmul: true, tag: tag.into() });
+            }
+            if j % 9 == 0 {
+                cases.push(Case::G2Mul { base: hx(&js[6]), l: s2(&l2s[3]), scalar: hx(&k), gmul: false, tag: tag.into() });
+            }
+        }
     }
     for (tag, s) in &sc2 {
         cases.push(Case::G2Mul { base: hx(&BigUint::one()), l: s2(&f2().one()), scalar: hx(s), gmul: true, tag: tag.clone() });
